@@ -48,5 +48,5 @@ NestS == (t1 :> 3) @@ (t2 :> 3) @@ (t3 :> 3)
 NestTA == (t1 :> 4)
 NestTB == (t1 :> 2) @@ (t2 :> 1)
 NestTC == (t1 :> 2) @@ (t2 :> 2) @@ (t3 :> 1)
-NestTH == (t1 :> 2) @@ (t2 :> 1)
+NestTH == (t1 :> 1) @@ (t2 :> 1)
 =============================================================================
